@@ -150,6 +150,23 @@ func (p *Prog) checkStructurals(prop string) []structResult {
 			continue
 		}
 		name := "structural:" + st.Name
+		if st.Kind == "walks-children" {
+			// one obligation per (Type.Field), so that a recorded finding does not hide a new one
+			ok, detail, items := p.walksChildrenItems(st)
+			if !ok && len(items) > 0 {
+				var keys []string
+				for k := range items {
+					keys = append(keys, k)
+				}
+				sort.Strings(keys)
+				for _, k := range keys {
+					out = append(out, structResult{name: name + ":" + k, ok: false, detail: items[k]})
+				}
+				continue
+			}
+			out = append(out, structResult{name: name, ok: ok, detail: detail})
+			continue
+		}
 		ok, detail := p.structural(st)
 		out = append(out, structResult{name: name, ok: ok, detail: detail})
 	}
@@ -292,6 +309,8 @@ func (p *Prog) structural(st Structural) (bool, string) {
 		return p.fieldReadonly(st)
 	case "noflow":
 		return p.noflow(st)
+	case "walks-children":
+		return p.walksChildren(st)
 	case "nocall":
 		// nocall F G : function F contains no direct call (call, defer, go) of a function whose name matches G
 		if len(st.Args) != 2 {
